@@ -547,6 +547,24 @@ def run(ck):
                           "note": "an obligation over the regenerated skeleton table no longer checks (or the extracted analysis and the implementation "
                                   "disagree about a gate) but every call explored on read-mode handles left file and view unchanged and every read call "
                                   "in MODIFY mode left the tree unchanged"}, nofail=True)
+    # ---- read-only SESSIONS the per-entry-point passes cannot express (harness/c07_modes.c): every CG_CONFIG_COMPRESS
+    # setting around a CG_MODE_READ open/close of a file with deleted space; every spelling of the cgio read mode
+    # (CGIO_MODE_READ, 'r', 'R') against every cgio mutator, with the read-API view of the same handle and the bytes
+    mexe = vlib.build_harness("c07_modes", ["c07_modes.c"])
+    dyn["mode_sessions"] = {}
+    for op in ("compress", "spell"):
+        for b in BACKENDS:
+            lines, outcome = vlib.run_impl(mexe, "", args=[op, b, os.path.join(work, "modes_%s_%s.cgns" % (op, b))], cwd=work, timeout=300)
+            ck.cov["evaluations"] += len(lines)
+            ck.cov["traces_validated_against_impl"] += 1
+            dyn["mode_sessions"]["%s/%s" % (op, b)] = len(lines)
+            bad = [l for l in lines if " BAD " in l]
+            if outcome != "ok" or bad or not lines:
+                what = bad[0].split(" BAD ")[0].replace(" ", ":") if bad else outcome
+                ck.finding("ro-session:%s:%s" % (op, what.split(":", 1)[-1] if bad else what),
+                           {"level": "session", "backend": b, "scenario": op, "observed": bad[:8], "outcome": outcome,
+                            "oracle": "bytes and inode of the file, and what the read API returns on the same handle, are unchanged; every mutator fails",
+                            "replay_hint": ".build/h/c07_modes %s %s /tmp/x.cgns" % (op, b)})
     for k in ("mutators_rejected_with_mode_message", "mutators_failed_other", "args_valid_in_modify"):
         dyn[k + "_count"] = len(dyn[k])
         dyn[k] = sorted(dyn[k])[:400]
